@@ -373,7 +373,8 @@ class Check:
             self.notes["assumption_mismatch"] = True
 
     def finish(self):
-        os.makedirs(os.path.join(VERIF, "evidence"), exist_ok=True)
+        evdir = os.environ.get("VERIF_EVIDENCE_DIR") or os.path.join(VERIF, "evidence")   # seed experiments write elsewhere
+        os.makedirs(evdir, exist_ok=True)
         os.makedirs(os.path.join(VERIF, "replays"), exist_ok=True)
         self.cov["distinct_nontrivial"] = len(self._distinct)
         exit_code = 0
@@ -410,7 +411,7 @@ class Check:
             "violations": len(vio),
         }
         ev["coverage"]["known_findings_hit"] = {fid: n for fid, (k, n) in self.known_hits.items()}
-        with open(os.path.join(VERIF, "evidence", self.pid + ".json"), "w") as f:
+        with open(os.path.join(evdir, self.pid + ".json"), "w") as f:
             json.dump(ev, f, indent=1, default=str)
         for l in lines:
             print(l)
